@@ -71,3 +71,46 @@ def replay_many(traces):
             res.append(f"event #{v} is not an enabled step of {model} in the state the replay had reached (or an observed value differs from the model's): "
                        f"{t.events[v].brief()} (previous of that thread: " + "; ".join(e.brief() for e in [x for x in t.events[:v] if x.tid == t.events[v].tid][-3:]) + ")")
     return res
+
+
+LIVE_STATS = {"replayed": 0, "outside_class": 0, "finished_and_complete": 0, "potential_left_max": 0}
+
+
+def live_replay_many(traces):
+    """drained single-producer pipelines: replay on the TERMINATION model (Disruptor/Liveness.v through live_replay_entry).
+    returns list: None (outside the theorem's class), True, or (message, semantic) where semantic means: the rejected event is the
+    alert store or a handler thread's end, i.e. drain returned / a handler left although the model says work is outstanding"""
+    idx = [i for i, t in enumerate(traces) if not t.cfg.multi and t.cfg.drain]
+    lines = [encode(traces[i]).replace("ring_validate_entry", "live_replay_entry", 1) for i in idx]
+    res = [None] * len(traces)
+    if not lines: return res
+    try:
+        outs = driver_eval(lines)
+    except RuntimeError:
+        outs = []
+        for k, ln in enumerate(lines):
+            try:
+                outs.append(driver_eval([ln])[0])
+            except RuntimeError:
+                DRIVER_FAILURES.append(len(traces[idx[k]].events)); outs.append("-2")
+    for i, o in zip(idx, outs):
+        t = traces[i]; f = [int(x) for x in o.split()]
+        if f[0] == -2 or f[0] == -3:
+            LIVE_STATS["outside_class"] += 1; continue
+        LIVE_STATS["replayed"] += 1
+        if f[0] >= 0:
+            e = t.events[f[0]]
+            semantic = e.kind in (8, 21)          # BSTORE (alert) / TEND
+            res[i] = (f"event #{f[0]} is not an enabled step of the termination model Disruptor/Liveness.v in the state the replay had reached: {e.brief()}"
+                      + (" - the alert was raised (drain returned) although, in the model state, not every write call is done or the last stage has not caught up with the cursor" if e.kind == 8 else "")
+                      + (" - a handler thread ended before the alert or in the middle of a batch" if e.kind == 21 else ""), semantic)
+            continue
+        LIVE_STATS["potential_left_max"] = max(LIVE_STATS["potential_left_max"], f[2])
+        if t.outcome == 1:
+            if f[1] != 1:
+                res[i] = ("the implementation finished (all threads ended) but the state the termination model reached on the same execution is not its COMPLETE state "
+                          f"(remaining potential {f[2]}): some handler has not returned from everything published, or has not exited", True)
+                continue
+            LIVE_STATS["finished_and_complete"] += 1
+        res[i] = True
+    return res
